@@ -23,7 +23,7 @@ type St struct {
 	Graph   string
 	Counter int64
 	Log     []string
-	Saved   map[string]map[string]any
+	Saved   map[string]any // node key -> saved input (a map[string]any)
 }
 
 var stateSerial int64
@@ -112,9 +112,9 @@ func (b *builder) newOpts(spec *GraphSpec) []compose.NewGraphOption {
 	}
 	name := spec.Name
 	return []compose.NewGraphOption{compose.WithGenLocalState(func(ctx context.Context) *St {
-		st := &St{Serial: atomic.AddInt64(&stateSerial, 1), Graph: name, Saved: map[string]map[string]any{}}
+		st := &St{Serial: atomic.AddInt64(&stateSerial, 1), Graph: name, Saved: map[string]any{}}
 		if ctl := CtlFrom(ctx); ctl != nil {
-			ctl.Log.addState("gen", name, st.Serial)
+			ctl.Log.addState("gen", name, st.Serial, 0)
 		}
 		if b.bo.OnGen != nil {
 			b.bo.OnGen(ctx, name, st)
@@ -146,7 +146,7 @@ func (b *builder) nodeOpts(g *GraphSpec, n *NodeSpec) []compose.GraphAddNodeOpt 
 	if n.Pre {
 		opts = append(opts, compose.WithStatePreHandler(func(ctx context.Context, in V, st *St) (V, error) {
 			if ctl := CtlFrom(ctx); ctl != nil {
-				ctl.Log.addState("pre", key, st.Serial)
+				ctl.Log.addState("pre", key, st.Serial, st.Counter)
 			}
 			if onState != nil {
 				onState(ctx, "pre", key, st)
@@ -154,7 +154,7 @@ func (b *builder) nodeOpts(g *GraphSpec, n *NodeSpec) []compose.GraphAddNodeOpt 
 			st.Counter++
 			st.Log = append(st.Log, "pre:"+key)
 			if rerun {
-				if saved, ok := st.Saved[key]; ok && len(in) == 0 {
+				if saved, ok := st.Saved[key].(map[string]any); ok && len(in) == 0 {
 					in = CopyV(saved).(V)
 					st.Log = append(st.Log, "restore:"+key)
 					return in, nil // marker already contained
@@ -167,7 +167,7 @@ func (b *builder) nodeOpts(g *GraphSpec, n *NodeSpec) []compose.GraphAddNodeOpt 
 			out["p."+key] = "1"
 			if rerun {
 				if st.Saved == nil {
-					st.Saved = map[string]map[string]any{}
+					st.Saved = map[string]any{}
 				}
 				st.Saved[key] = CopyV(out).(V)
 			}
@@ -177,7 +177,7 @@ func (b *builder) nodeOpts(g *GraphSpec, n *NodeSpec) []compose.GraphAddNodeOpt 
 	if n.Post {
 		opts = append(opts, compose.WithStatePostHandler(func(ctx context.Context, out V, st *St) (V, error) {
 			if ctl := CtlFrom(ctx); ctl != nil {
-				ctl.Log.addState("post", key, st.Serial)
+				ctl.Log.addState("post", key, st.Serial, st.Counter)
 			}
 			if onState != nil {
 				onState(ctx, "post", key, st)
@@ -195,7 +195,7 @@ func (b *builder) nodeOpts(g *GraphSpec, n *NodeSpec) []compose.GraphAddNodeOpt 
 	if n.StreamPre {
 		opts = append(opts, compose.WithStreamStatePreHandler(func(ctx context.Context, in *schema.StreamReader[V], st *St) (*schema.StreamReader[V], error) {
 			if ctl := CtlFrom(ctx); ctl != nil {
-				ctl.Log.addState("pre", key, st.Serial)
+				ctl.Log.addState("pre", key, st.Serial, st.Counter)
 			}
 			if onState != nil {
 				onState(ctx, "pre", key, st)
@@ -209,7 +209,7 @@ func (b *builder) nodeOpts(g *GraphSpec, n *NodeSpec) []compose.GraphAddNodeOpt 
 	if n.StreamPost {
 		opts = append(opts, compose.WithStreamStatePostHandler(func(ctx context.Context, out *schema.StreamReader[V], st *St) (*schema.StreamReader[V], error) {
 			if ctl := CtlFrom(ctx); ctl != nil {
-				ctl.Log.addState("post", key, st.Serial)
+				ctl.Log.addState("post", key, st.Serial, st.Counter)
 			}
 			if onState != nil {
 				onState(ctx, "post", key, st)
@@ -257,7 +257,7 @@ func (n *nodeRT) compute(ctx context.Context, ctl *RunCtl, e *Exec, in any) (out
 		ctl.OnBody(ctx, n.key, in)
 	}
 	if n.spec.Rerun && ctl.RerunEnabled {
-		if _, seen := ctl.rerunSeen.LoadOrStore(n.path, struct{}{}); !seen {
+		if _, seen := ctl.RerunSeen.LoadOrStore(n.path, struct{}{}); !seen {
 			return nil, compose.InterruptAndRerun
 		}
 	}
